@@ -1325,6 +1325,7 @@ void IGXMLScanner::scanReset(const InputSource& src)
     }
     fUndeclaredAttrRegistry->removeAll();
     fDTDElemNonDeclPool->removeAll();
+    fSchemaElemNonDeclPool->removeAll();
 }
 
 
